@@ -14,6 +14,54 @@
    file in between.
 
    No external modification, no fault, user code writes only its own target. *)
+(* Reproduction on the implementation (file_builder at /repo, HEAD 2001e1b), same
+   history as section 2 below; prints r = 'r:B' after the third (incremental)
+   build and r = 'r:X' for the same program on the same foreign files from an
+   empty cache:
+
+     import os, sys, tempfile
+     sys.path.insert(0, "/repo")
+     from file_builder import FileBuilder, FileComparison
+     def w(p, s):
+         with open(p, "w") as f: f.write(s)
+     def program(root):
+         P, Q, R = (os.path.join(root, n) for n in ("p", "q", "r"))
+         F1, F2 = os.path.join(root, "flag1"), os.path.join(root, "flag2")
+         def fp(b, p): w(p, "A")
+         def fq(b, q):
+             try: b.build_file_with_comparison(P, FileComparison.HASH, "fp", fp)
+             except RuntimeError: pass
+             w(q, "Q")
+         def fp3(b, p):
+             w(p, "X")
+             b.build_file_with_comparison(Q, FileComparison.HASH, "fq", fq)
+             if b.exists(F2): w(p, "B")
+         def fr(b, r):
+             with b.read_text(P, FileComparison.HASH) as fh: c = fh.read()
+             w(r, "r:" + c)
+         def main(b):
+             if b.exists(F1): b.build_file_with_comparison(Q, FileComparison.HASH, "fq", fq)
+             else:
+                 b.build_file_with_comparison(P, FileComparison.HASH, "fp3", fp3)
+                 b.build_file_with_comparison(R, FileComparison.HASH, "fr", fr)
+         return main
+     root = tempfile.mkdtemp(); cache = os.path.join(root, "cache")
+     w(os.path.join(root, "flag1"), ""); w(os.path.join(root, "flag2"), "")
+     FileBuilder.build(cache, "n", program(root))
+     os.remove(os.path.join(root, "flag1")); FileBuilder.build(cache, "n", program(root))
+     os.remove(os.path.join(root, "flag2")); FileBuilder.build(cache, "n", program(root))
+     print(open(os.path.join(root, "r")).read())                      # r:B
+     root2 = tempfile.mkdtemp()
+     FileBuilder.build(os.path.join(root2, "cache"), "n", program(root2))
+     print(open(os.path.join(root2, "r")).read())                     # r:X
+
+   A repair that was tried on a copy of the implementation (reproduction fixed,
+   the package's 138 unit tests still pass): in
+   FileBuilder._is_build_file_operation_cached, test
+   "new cache has the file, or it is the cache file -> return False" BEFORE the
+   test that compares the file on disk (_is_build_file_cached); then a replay
+   never hashes a path that is claimed and in progress, and the only entries
+   keyed "built" are made when an output is finished or read after that. *)
 From Coq Require Import List String NArith ZArith Bool Arith.
 From FB.Base Require Import PyVal Fs.
 From FB.Gen Require Import JsonUtilGen.
